@@ -18,7 +18,7 @@ RULE = (
     "refusal; distinct = hash of parameters and layout; non-trivial = >=2 samples in the holder"
 )
 ASSUMPTIONS = ["a value-preserving widening of a parameter dtype on load is accepted, a narrowing never"]
-REQUIRED = {"partial_roundtrips_checked": {"quick": 60, "thorough": 1200}, "roundtrips_checked": {"quick": 200, "thorough": 5000}, "samples_compared": {"quick": 2000, "thorough": 50000}, "roundtrips_ge_10_samples": {"quick": 60, "thorough": 1500}, "concats_checked": {"quick": 60, "thorough": 1500}, "cli_runs": {"quick": 20, "thorough": 400}, "refusals_checked": {"quick": 150, "thorough": 3000}, "refused_saves_checked": {"quick": 80, "thorough": 1500}}
+REQUIRED = {"cli_runs_with_equal_file_names": {"quick": 6, "thorough": 100}, "partial_roundtrips_checked": {"quick": 60, "thorough": 1200}, "roundtrips_checked": {"quick": 200, "thorough": 5000}, "samples_compared": {"quick": 2000, "thorough": 50000}, "roundtrips_ge_10_samples": {"quick": 60, "thorough": 1500}, "concats_checked": {"quick": 60, "thorough": 1500}, "cli_runs": {"quick": 20, "thorough": 400}, "refusals_checked": {"quick": 150, "thorough": 3000}, "refused_saves_checked": {"quick": 80, "thorough": 1500}}
 N_CASES = {"quick": 800, "thorough": 9600}
 
 ADV = [5e-324, -5e-324, 1e-310, 0.0, -0.0, 1.0 + 2**-52, 1.0 - 2**-53, 0.1, 1e300, -1e300, 1e-300, 16777217.0, 3.141592653589793, 2.0**-150]
@@ -231,8 +231,20 @@ def run_shard(rec, tier, seed, shard, nshards):
                 f_s = os.path.join(tmp, "scr.h5")
                 f_o = os.path.join(tmp, "me.h5")
                 screen.save_h5(f_s)
+                cli_files = [files[c] for c in order]
+                if rng.random() < 0.4:
+                    # one directory per chain, the same file name in each (chain_0/samples.h5, chain_1/samples.h5 ...)
+                    import shutil as _sh
+
+                    cli_files = []
+                    for c in order:
+                        d_ = os.path.join(tmp, "chain_%d" % c)
+                        os.makedirs(d_, exist_ok=True)
+                        _sh.copyfile(files[c], os.path.join(d_, "samples.h5"))
+                        cli_files.append(os.path.join(d_, "samples.h5"))
+                    rec.count("cli_runs_with_equal_file_names")
                 try:
-                    kit.run_cli(cli_eval.main, ["--screen", f_s, "--thetas"] + [files[c] for c in order] + ["--output", f_o])
+                    kit.run_cli(cli_eval.main, ["--screen", f_s, "--thetas"] + cli_files + ["--output", f_o])
                     me = ModelEvaluation.load_h5(f_o)
                 except Exception as e:
                     if isinstance(e, ValueError) and "NaN predictions" in str(e) and adv:
